@@ -55,6 +55,11 @@ static void check_case(vg::Src& s, vh::Ctx& c)
             LD Rres = static_cast<LD>(znew) - zi;
             LD scale = std::fabs(znew) + std::fabs(zi);
             LD deriv_sum = 1;
+            // (A w)^m is computed in double precision: where it falls below DBL_MIN it carries an
+            // absolute error of up to DBL_MIN (underflow), which K dt - up to 1e100 in the
+            // "extreme products" class - multiplies: 1e100 x 1e-308 is still far below the
+            // rounding of any elevation, but not below a bound that is relative to F itself
+            LD underflow = 0;
             bool equal_rec = false;
             LD Fsum_lin = 0, num_lin = zi;  // exact solution for n = 1
             LD F1 = 0, d1 = 1, zr1 = 0;     // single receiver (n != 1)
@@ -83,6 +88,7 @@ static void check_case(vg::Src& s, vh::Ctx& c)
                     zr1 = zj;
                 }
                 LD dr = fabsl(static_cast<LD>(znew) - zj) / d;
+                underflow += static_cast<LD>(r.kn[i]) * sc.dt * static_cast<LD>(DBL_MIN) * (linear ? dr : powl(dr, static_cast<LD>(sc.n)));
                 LD deriv = linear ? F / d : F * sc.n * powl(dr > 0 ? dr : 1e-300L, static_cast<LD>(sc.n) - 1) / d;
                 scale += deriv * (fabsl(static_cast<LD>(zi)) + fabsl(static_cast<LD>(znew)) + fabsl(zj));
                 deriv_sum += deriv;
@@ -102,7 +108,7 @@ static void check_case(vg::Src& s, vh::Ctx& c)
             // relative rounding (64 eps on the magnitudes, amplified by the derivative of the implicit
             // term) plus the absolute quantum of subnormal results (elevations near 5e-324 are exact
             // only up to one subnormal increment, which the implicit term amplifies as well)
-            LD bound = 64 * eps * scale + 16 * 4.9406564584124654e-324L * deriv_sum + (linear ? 0 : static_cast<LD>(tol));
+            LD bound = 64 * eps * scale + 16 * 4.9406564584124654e-324L * deriv_sum + 4 * underflow + (linear ? 0 : static_cast<LD>(tol));
             bool solves = fabsl(Rres) <= bound;
             if (solves)
             {
